@@ -1,2 +1,3 @@
 import PysamlModel.Props.PyTieC06
 #print axioms PyTie.loads_refines
+#print axioms PyTie.scan_refines
